@@ -279,6 +279,7 @@ Definition tok_big (t : tok) : bool :=
   | TCCFreq v => zbig v
   | TDecresc _ v1 v2 => zbig v1 || zbig v2
   | TTiming v | TOctave v | TQLen v | TVelocity v _ => zbig v      (* the plain values read by the same readers *)
+  | TPort v => zbig v
   | _ => false
   end.
 Definition otok_big (ot : option tok) : bool := match ot with Some t => tok_big t | None => false end.
@@ -746,6 +747,15 @@ Definition read_ext_command_raw (ls : lexstate) (ttype : list ch) (argt tag1 tag
       do r <- read_decres tag1 (lx_timebase ls) s ln; let '(t, s1, ln1) := r in Ok (Some t, s1, ln1, ls)
     else if list_eqb ttype (zs "Play") then read_play ls s ln
     else if list_eqb ttype (zs "DefStr") then read_def_str ls s ln
+    else Unsupported U_UPPER
+  else if argt =? 73 then
+    (* 'I': skip blanks, an optional '=', read_args_tokens; exec_args(..)[0].to_i() *)
+    if list_eqb ttype (zs "Port") then
+      let '(s2, ln2) := skip_space s ln in
+      let s3 := if eq_char s2 61 then tl s2 else s2 in
+      do ra <- read_args_tokens ls s3 ln2;
+      let '(vs, s4, ln4, ls') := ra in
+      Ok (Some (TPort (oz (hd None vs))), s4, ln4, ls')
     else Unsupported U_UPPER
   else if argt =? 83 then
     (* 'S': skip blanks, an optional '=', read_args_tokens; the arguments may be strings *)
